@@ -588,12 +588,32 @@ def _lazy_part(rep, tier, wd, J):
     return n_real
 
 
+def _fine_refinement(rep, tier, wd):
+    """Statement-granularity model (mutex acquisition, counter update, counter test as separate steps) refines the
+    lock-operation model that is walked on the real lock; the variant with the test after the mutex release does not."""
+    fine = os.path.join(SPEC, "RWLockFine.tla")
+
+    def cfg(R, W, P, broken):
+        return ("SPECIFICATION Spec\nCONSTANTS R = %d\nW = %d\nPasses = %d\nBROKEN_RELEASE = %s\nPROPERTY Refines\nINVARIANT MutexFine\n"
+                % (R, W, P, "TRUE" if broken else "FALSE"))
+    for (R, W, P) in ([(2, 2, 1), (2, 1, 2)] if tier == "quick" else [(2, 2, 1), (2, 2, 2), (3, 2, 1)]):
+        res = tlc.require_ok(tlc.run(fine, cfg(R, W, P, False), os.path.join(wd, "fine_%d%d%d" % (R, W, P)), workers=NPROC, timeout=2400, deadlock=True),
+                             "RWLockFine %dR+%dW x %d" % (R, W, P))
+        rep.add_mc("RWLockFine %dR+%dW x %d: statement-level model REFINES the lock-operation model RWLock (and Mutex)" % (R, W, P), res,
+                   {"R": R, "W": W, "Passes": P})
+    bad = tlc.run(fine, cfg(2, 2, 1, True), os.path.join(wd, "fine_bad"), workers=4, timeout=600, deadlock=True)
+    if bad.ok or not any("Action property" in e or "violated" in e for e in bad.errors):
+        raise MachineryError("self-test: BROKEN_RELEASE variant of RWLockFine was not refuted")
+    rep.cov["parts"].setdefault("selftests_fine", []).append("RWLockFine with the counter test after the mutex release does not refine RWLock (TLC refutes)")
+
+
 def run(tier):
     rep = Report("C20", tier)
     with Scratch("c20") as wd:
         J = _all_tlc_runs(tier, wd)
         edges = _rwlock_part(rep, tier, wd, J)
         nev = _lazy_part(rep, tier, wd, J)
+        _fine_refinement(rep, tier, wd)
     rep.cov["exhaustive"] = True
     rep.cov["explanation"] = ("RWLock: complete state graphs of the bounded instances, every edge replayed on the real lock (%d edges); "
                               "lazy table: every line-level (tiny curve and scale(): also byte-code level) pre-emption point of thread A"
